@@ -20,7 +20,7 @@ use crate::util::*;
 pub const PROP: Prop = Prop {
     id: "C07",
     level: "fault_enumeration",
-    rule: "(plus atoms of 256 B .. 64 KiB (128 KiB) with a multi-byte character straddling the size threshold, through every entry point under short-write limits 1, 1000, 4096, 4097 and through Display into a String and into a failing sink) values from G_value (with a number- and byte-vector-heavy variant) x printer option sets (default plus sampled from all 576) x sink schedules: every write accepts at most k bytes for k = 1,2,3,5, a generated cycle of per-call limits, zero-byte acceptance, Interrupted results, and a hard error injected at EVERY output offset 0..=len of the text (exhaustive per value); the sink implements both write and a native write_vectored under the same limits, so a short acceptance may end inside any slice of a vectored call; six entry points (to_writer, to_writer_custom, Printer::new, Printer::with_options, Printer::with_formatter, Display into a failing fmt::Write); oracle: reference text from to_string(_custom); non-trivial = text of at least 8 bytes containing a number, byte vector or escape, under a schedule that splits at least one write call; distinct by digest of (value, options, schedule)",
+    rule: "(plus atoms of 256 B .. 64 KiB (128 KiB) with a multi-byte character straddling the size threshold, through every entry point under short-write limits 1, 1000, 4096, 4097 and through Display into a String and into a failing sink) values from G_value (with a number- and byte-vector-heavy variant) x printer option sets (default plus sampled from all 576) x sink schedules: every write accepts at most k bytes for k = 1,2,3,5, a generated cycle of per-call limits, zero-byte acceptance, Interrupted results, and a hard error injected at EVERY output offset 0..=len of the text (exhaustive per value), persistent or occurring once only (the sink would accept later writes again); the sink implements both write and a native write_vectored under the same limits, so a short acceptance may end inside any slice of a vectored call; six entry points (to_writer, to_writer_custom, Printer::new, Printer::with_options, Printer::with_formatter, Display into a failing fmt::Write); oracle: reference text from to_string(_custom); non-trivial = text of at least 8 bytes containing a number, byte vector or escape, under a schedule that splits at least one write call; distinct by digest of (value, options, schedule)",
     assumptions: &[
         "the reference text is to_string_custom(v, P), whose agreement with the other non-faulty entry points is C01's clause",
         "Interrupted results are only required to give either Ok with the exact text or Err with a prefix delivered (the statement does not speak about them)",
@@ -42,6 +42,9 @@ pub enum Sched {
     Interrupt(usize, usize),
     /// all offsets 0..=len get a hard error, one run per offset (enumerated inside the check)
     ErrorEverywhere,
+    /// like ErrorEverywhere, but the sink fails only once and would accept
+    /// later writes again (a transient failure): the printer has to stop anyway
+    FailOnceEverywhere,
 }
 
 struct Sink {
@@ -51,6 +54,8 @@ struct Sink {
     interrupt_every: usize,
     err_at: Option<usize>,
     split: bool,
+    fail_once: bool,
+    failed: bool,
 }
 
 impl Sink {
@@ -60,7 +65,7 @@ impl Sink {
             Sched::Cycle(c) => (if c.is_empty() { vec![1] } else { c.clone() }, 0),
             Sched::Zero => (vec![0], 0),
             Sched::Interrupt(n, k) => (vec![(*k).max(1)], (*n).max(2)),
-            Sched::ErrorEverywhere => (vec![usize::MAX], 0),
+            Sched::ErrorEverywhere | Sched::FailOnceEverywhere => (vec![usize::MAX], 0),
         };
         Sink {
             buf: Vec::new(),
@@ -69,6 +74,8 @@ impl Sink {
             interrupt_every,
             err_at,
             split: false,
+            fail_once: matches!(s, Sched::FailOnceEverywhere),
+            failed: false,
         }
     }
 }
@@ -83,9 +90,16 @@ impl Sink {
         let mut cap = self.limits[(self.calls - 1) % self.limits.len()];
         if let Some(off) = self.err_at {
             if self.buf.len() >= off {
-                return Err(io::Error::new(io::ErrorKind::Other, "injected write error"));
+                if !self.fail_once {
+                    return Err(io::Error::new(io::ErrorKind::Other, "injected write error"));
+                }
+                if !self.failed {
+                    self.failed = true;
+                    return Err(io::Error::new(io::ErrorKind::Other, "injected write error (once)"));
+                }
+            } else {
+                cap = cap.min(off - self.buf.len());
             }
-            cap = cap.min(off - self.buf.len());
         }
         let n = cap.min(total);
         if n < total {
@@ -210,7 +224,7 @@ pub fn check_case(mv: &MV, pi: usize, sched: &Sched) -> CaseResult {
             let s = if uses_options(entry) { &s_custom } else { &s_default };
             let sb = s.as_bytes();
             match sched {
-                Sched::ErrorEverywhere => {
+                Sched::ErrorEverywhere | Sched::FailOnceEverywhere => {
                     for off in 0..=sb.len() {
                         let mut sink = Sink::new(sched, Some(off));
                         let res = run_entry(entry, &v, &p, &mut sink);
@@ -291,7 +305,7 @@ pub fn check_case(mv: &MV, pi: usize, sched: &Sched) -> CaseResult {
         }
         // Display into a failing fmt::Write
         let limits: Vec<usize> = match sched {
-            Sched::ErrorEverywhere => (0..=s_default.len()).collect(),
+            Sched::ErrorEverywhere | Sched::FailOnceEverywhere => (0..=s_default.len()).collect(),
             Sched::Max(k) => vec![*k, s_default.len()],
             _ => vec![s_default.len() / 2, s_default.len()],
         };
@@ -309,7 +323,7 @@ pub fn check_case(mv: &MV, pi: usize, sched: &Sched) -> CaseResult {
         }
         let interesting = s_custom.len() >= 8
             && mv.any(&|m| matches!(m, MV::U(_) | MV::I(_) | MV::F(_) | MV::Bytes(_)) || matches!(m, MV::Str(s) if s.chars().any(|c| (c as u32) < 0x20 || c == '"' || c == '\\')));
-        Ok((interesting && (any_split || matches!(sched, Sched::ErrorEverywhere)), evals))
+        Ok((interesting && (any_split || matches!(sched, Sched::ErrorEverywhere | Sched::FailOnceEverywhere)), evals))
     });
     match r {
         Err(pm) => Err(fail(format!("panic={}", panic_sig(&pm)), format!("panicked: {}", pm))),
@@ -320,6 +334,7 @@ pub fn check_case(mv: &MV, pi: usize, sched: &Sched) -> CaseResult {
             Sched::Zero => "sched:zero-accept",
             Sched::Interrupt(..) => "sched:interrupted",
             Sched::ErrorEverywhere => "sched:error-at-every-offset",
+            Sched::FailOnceEverywhere => "sched:fail-once-at-every-offset",
         })),
     }
 }
@@ -379,6 +394,7 @@ fn g_sched() -> BS<Sched> {
         1 => Just(Sched::Zero),
         1 => (2usize..5, 1usize..4).prop_map(|(n, k)| Sched::Interrupt(n, k)),
         3 => Just(Sched::ErrorEverywhere),
+        2 => Just(Sched::FailOnceEverywhere),
     ]
     .boxed()
 }
@@ -447,7 +463,7 @@ fn run(ctx: &mut Ctx) {
     ];
     for b in &battery {
         for pi in [0usize, POpt::elisp().index(), 3, 24, 100, 575] {
-            for s in [Sched::Max(1), Sched::Max(2), Sched::Max(3), Sched::Max(5), Sched::Zero, Sched::ErrorEverywhere, Sched::Cycle(vec![1, 3, 2]), Sched::Interrupt(2, 1)] {
+            for s in [Sched::Max(1), Sched::Max(2), Sched::Max(3), Sched::Max(5), Sched::Zero, Sched::ErrorEverywhere, Sched::FailOnceEverywhere, Sched::Cycle(vec![1, 3, 2]), Sched::Interrupt(2, 1)] {
                 ctx.observe("battery", check_case(b, pi, &s));
             }
         }
@@ -459,7 +475,7 @@ fn run(ctx: &mut Ctx) {
         ctx.add_sample("sinks", json!({"text": clip(&t, 100), "printer_index": pi, "schedule": format!("{:?}", s)}));
     }
     ctx.exhaustive.push("a hard error at every output offset 0..=len of every value given the ErrorEverywhere schedule".into());
-    ctx.required_classes = vec!["sched:max-k", "sched:cycle", "sched:zero-accept", "sched:interrupted", "sched:error-at-every-offset"];
+    ctx.required_classes = vec!["sched:max-k", "sched:cycle", "sched:zero-accept", "sched:interrupted", "sched:error-at-every-offset", "sched:fail-once-at-every-offset"];
 }
 
 fn replay(_sub: &str, case: &Json) -> Option<CaseResult> {
@@ -478,12 +494,13 @@ pub fn fuzz(f: &mut FuzzIn) -> Option<CaseResult> {
     if f.mode % 2 == 0 && f.raw.len() >= 6 {
         let pi = u16::from_le_bytes([f.raw[0], f.raw[1]]) as usize % N_POPT;
         let k = f.raw[3] as usize;
-        let sched = match f.raw[2] % 6 {
+        let sched = match f.raw[2] % 7 {
             0 => Sched::Max(1 + k % 9),
             1 => Sched::Cycle(vec![1 + k % 7, k / 8 % 5, 1 + k / 64]),
             2 => Sched::Cycle(vec![1 + k % 5, 2 + k / 16 % 9]),
             3 => Sched::Interrupt(2 + k % 3, 1 + k / 4 % 3),
             4 => Sched::Zero,
+            5 => Sched::FailOnceEverywhere,
             _ => Sched::ErrorEverywhere,
         };
         let cfg = ValueCfg { ident: IdentRules::default(), bytes: true, keywords: true, depth: 3, nodes: 24, branch: 4, str_max: 8 };
